@@ -112,9 +112,11 @@ EXTRA = {
     "C20": "Corrupted words include every one-bit neighbour of the marker and timestamp tag bytes, in scenarios where nothing else can explain a failure.",
     "C03": "Every combination of one flipped bit in each of the two stored CRC words, all 24 byte orders of each word, complements, rotations, exchanged words and the IEEE polynomial are enumerated on the implementation.",
     "C11": "Chunk header fields that must not matter are re-drawn and used as sort keys for arrival orders; simulated events are also built under a real-data run number with other delays and gains in the same process and compared with fresh processes (history independence).",
-    "C08": "The maps are also asked for run r2 right after run r1 for every ordered pair of ten boundary runs (history independence); the 128^4 sweep is memory-bounded whatever the code accepts.",
+    "C08": "The maps are also asked for run r2 right after run r1 for every ordered pair of ten boundary runs (history independence); the 128^4 sweep is memory-bounded whatever the code accepts. At the level of the event builder, a good TRG bank plus one bank with a visited name and junk bytes must build exactly when the name is a documented ignored bank (judged by MainEvent.tla).",
     "C18": "Every slice boundary is also looked up immediately after eight other positions (history independence).",
-    "C02": "Length classes 12..44 ending in the footer of the accepted 16-byte form are part of the decision table.",
+    "C05": "Every decoder case is decoded twice in a row on one thread (clause not-repeatable).",
+    "C06": "Every decoder case is decoded twice in a row on one thread (clause not-repeatable).",
+    "C02": "Every decoder case is decoded twice in a row on one thread (clause not-repeatable). Length classes 12..44 ending in the footer of the accepted 16-byte form are part of the decision table.",
     "C01": "Sequence counters of chunk lists are also consecutive across their maxima or stuck at an extreme.",
     "C14": "Track sets include loops coaxial with the beam line (radius 3-12 cm) and ordinary tracks written with a negative radius, for every pitch of the list.",
     "C15": "A call that does not return (panic, abort, hang) delivers no partition and counts as a violation here as well; track sets include coaxial loops, negative radii, several tracks on one helix and equal-size groups in one Hough bin.",
